@@ -210,3 +210,41 @@ def damage_packid(h0: int, s0: int, s1: int, s2: int, a: int) -> bool:
     post: _
     """
     return _damage('check', 8, h0, s0, s1, s2, a, 0)
+
+
+def _damage_multi(s1, s2, s3, which, a, n, z):
+    """three packs of one object each (obj1 plain, obj2 compressed, obj3 plain); a sub-range of pack ``which`` is flipped"""
+    w = make_world(10**9)
+    try:
+        w.set_zlen(2, s2, z)
+        w.set_pack(0, [('obj', 1, s1)])
+        w.set_pack(1, [('zobj', 2, s2)])
+        w.set_pack(2, [('obj', 3, s3)])
+        objs = objs_map(w, [(1, s1), (2, s2), (3, s3)])
+        w.damage_pack(which, a, n)
+        bad = False
+        for k in objs:
+            i, size = objs[k]
+            try:
+                if not (w.c.get_object_content(k) == w.content(i, size)):
+                    bad = True
+            except Exception:
+                bad = True
+        if not bad:
+            return False  # every flip lies inside a referenced range here
+        try:
+            return not w.c.validate().is_valid()
+        except Exception:
+            return True
+    finally:
+        w.cleanup()
+
+
+def damage_multi(s1: int, s2: int, s3: int, which: int, a: int, n: int, z: int) -> bool:
+    """
+    pre: 1 <= s1 <= 70000 and 1 <= s2 <= 70000 and 1 <= s3 <= 70000 and 2 <= z <= 70000 and 0 <= which <= 2
+    pre: 0 <= a and 1 <= n
+    pre: a + n <= (s1 if which == 0 else (z if which == 1 else s3))
+    post: _
+    """
+    return _damage_multi(s1, s2, s3, which, a, n, z)
